@@ -17,6 +17,7 @@ import Driver.DecWavefront
 import Driver.Lifecycle
 import Driver.Dispatch
 import Driver.Simd
+import Driver.BufCfg
 
 def main (args : List String) : IO UInt32 := do
   match args with
@@ -39,4 +40,5 @@ def main (args : List String) : IO UInt32 := do
   | ["lifecycle"] => Driver.lifecycleMain; return 0
   | ["dispatch"] => Driver.dispatchMain; return 0
   | ["simd"] => Driver.simdMain; return 0
+  | ["bufcfg"] => Driver.bufCfgMain; return 0
   | _ => IO.eprintln "usage: svtmodel <subcommand>  (input on stdin, one op per line)"; return 2
